@@ -166,7 +166,9 @@ def gen_newick(rng, size, like=None):
     opts = gen_opts(rng, "newick") if like is None else dict(like["opts"])
     UNDERSCORES_ARE_SPACES[0] = not opts.get("preserve_underscores")
     ntrees = (0 if rng.random() < 0.03 else rng.choice([1, 1, 2, 2, 3, 4])) if size == "small" else rng.randint(1, 8)
-    pool = list(like["pool"]) if like is not None else rng.sample(POOL, rng.randint(2, min(len(POOL), 7 if size == "small" else 12)))
+    # plain Newick never resolves taxon *numbers*: labels that look like numbers must stay labels on every route
+    pool = list(like["pool"]) if like is not None else rng.sample(POOL + ["1", "2", "3", "2"], rng.randint(2, min(len(POOL), 7 if size == "small" else 12)))
+    pool = list(dict.fromkeys(pool))
     plan = rooting_plan(rng, ntrees)
     text = maybe_comments(rng, cfg["p_comment"]) + ws(rng)
     for i in range(ntrees):
